@@ -382,6 +382,48 @@ func c18Run(k c18Case, st *c18Stats) (int, string) {
 				if st != nil {
 					st.restored = true
 				}
+			case "ResetSegs":
+				// BlockReader.Reset: the same reader object goes on with another list of line segments over the same source - the
+				// list without its first k lines, without its last line, the physical lines, or every line cut at its first
+				// non-blank byte. Everything observed afterwards is what a new BlockReader over that list shows; positions saved
+				// before belong to the old list and are forgotten.
+				br, ok := rd.(text.BlockReader)
+				if !ok || len(lines) == 0 {
+					name = ""
+					return
+				}
+				var nl []text.Segment
+				switch o.Arg % 5 {
+				case 0:
+					nl = append(nl, lines[1+o.Arg2%len(lines)-1:]...)
+					if len(nl) > 1 {
+						nl = nl[1:]
+					}
+				case 1:
+					nl = append(nl, lines[:len(lines)-len(lines)/2]...)
+				case 2:
+					nl = physLines(src)
+				case 3:
+					nl = c18CanonicalSegs(src, 1)
+				default:
+					nl = append(nl, lines...)
+				}
+				if len(nl) == 0 {
+					name = ""
+					return
+				}
+				ss := text.NewSegments()
+				for _, sg := range nl {
+					ss.Append(sg)
+				}
+				br.Reset(ss)
+				lines = nl
+				m = newC18Cursor(src, lines, true)
+				slot, slots = nil, [4]*saved{}
+				l1, p1 := rd.Position()
+				init = saved{l1, p1, m.line, m.pos}
+				name = "Reset"
+				desc = checkPos("Reset(segments)")
 			case "ResetPosition":
 				rd.ResetPosition()
 				m.line, m.pos = init.ml, init.mp
@@ -694,6 +736,8 @@ func runC18(c *core.Ctx) {
 	srcLen, seqLen := c.N(4, 5), c.N(3, 4)
 	ops := []c18Op{{Name: "PeekLine"}, {Name: "Peek"}, {Name: "Advance1"}, {Name: "Advance2"}, {Name: "AdvanceRest"}, {Name: "AdvanceLine"},
 		{Name: "Save"}, {Name: "Restore"}, {Name: "LineOffset"}, {Name: "FindClosure", Arg: 4}, {Name: "FindClosureAdv", Arg: 4}, {Name: "TabPad", Arg: 1}, {Name: "ResetPosition"}}
+	// block readers additionally: a Value call and a Reset to a shorter list (sequences for plain readers are unchanged)
+	blockOps := append(append([]c18Op{}, ops...), c18Op{Name: "ResetSegs", Arg: 0, Arg2: 1}, c18Op{Name: "Value", Arg: 1, Arg2: 3})
 	nsrc := wl.ShortCount(len(c18Alpha), srcLen)
 	nseq := wl.ShortCount(len(ops), seqLen)
 	seqs := make([][]c18Op, 0, nseq)
@@ -708,6 +752,12 @@ func runC18(c *core.Ctx) {
 		}
 	}
 	gen(nil) // only full-length sequences: every shorter one is a prefix checked in lock-step
+	plainSeqs := seqs
+	seqs = nil
+	ops = blockOps
+	gen(nil)
+	blockSeqs := seqs
+	seqs = plainSeqs
 	for i := 0; i < nsrc; i++ {
 		if !c.Mine(i) {
 			continue
@@ -720,19 +770,23 @@ func runC18(c *core.Ctx) {
 			}
 		}
 		for _, v := range variants {
-			for _, s := range seqs {
+			ss := seqs
+			if v.Block {
+				ss = blockSeqs
+			}
+			for _, s := range ss {
 				v.Ops = s
 				runCase(v)
 			}
+			c.Count("exhaustive_cases", int64(len(ss)))
 		}
 		c.Count("exhaustive_sources", 1)
-		c.Count("exhaustive_cases", int64(len(variants)*len(seqs)))
 	}
 
 	// 2. random
 	r := c.Rng
 	nr := c.PerShard(c.N(400000, 60000000))
-	names := []string{"PeekLine", "Peek", "Advance", "Advance", "Advance1", "AdvanceRest", "AdvanceLine", "Save", "Restore", "Restore", "LineOffset", "FindClosure", "FindClosureAdv", "TabPad", "Value", "ResetPosition", "Pad0"}
+	names := []string{"PeekLine", "Peek", "Advance", "Advance", "Advance1", "AdvanceRest", "AdvanceLine", "Save", "Restore", "Restore", "LineOffset", "FindClosure", "FindClosureAdv", "TabPad", "Value", "Value", "ResetPosition", "Pad0", "ResetSegs"}
 	alpha := append(append([]string{}, c18Alpha...), "ab", "\n", "  ", "[x]", "(", ")", "``", "\\]", "\r\n", "\t\t")
 	for i := 0; i < nr; i++ {
 		var sb []byte
@@ -759,7 +813,7 @@ func runC18(c *core.Ctx) {
 	// 3. long sources: the number of lines at every boundary size (a reader that caches per-line data in a bounded table, or
 	// bounds a look-ahead, changes behaviour beyond some line count), several saved positions, jumps far back and forth
 	longNames := []string{"PeekLine", "Peek", "Advance", "AdvanceRest", "AdvanceLine", "AdvanceLines", "AdvanceLines", "SaveK", "SaveK", "RestoreK", "RestoreK", "RestoreK",
-		"LineOffset", "LineOffset", "FindClosure", "FindClosure", "FindClosureAdv", "TabPad", "ResetPosition", "Value", "Value", "Pad0"}
+		"LineOffset", "LineOffset", "FindClosure", "FindClosure", "FindClosureAdv", "TabPad", "ResetPosition", "Value", "Value", "Pad0", "ResetSegs"}
 	lk := 0
 	for _, nl := range wl.BoundarySizes {
 		if nl < 2 || nl > 1100 {
